@@ -112,11 +112,22 @@ pub fn private_device(full: bool) -> &'static str {
             fallback.to_string()
         }
     };
-    if full {
-        FULL.get_or_init(|| make("dev-full", 7, "/dev/full"))
-    } else {
-        NULL.get_or_init(|| make("dev-null", 3, "/dev/null"))
+    let (cell, name, minor, fallback) = if full { (&FULL, "dev-full", 7, "/dev/full") } else { (&NULL, "dev-null", 3, "/dev/null") };
+    let path = cell.get_or_init(|| make(name, minor, fallback));
+    // a subject may have removed or replaced the node in an earlier run: put it back
+    if path.as_str() != fallback {
+        use std::os::unix::fs::FileTypeExt;
+        let intact = fs::metadata(path).map(|m| m.file_type().is_char_device()).unwrap_or(false);
+        if !intact {
+            let _ = fs::remove_file(path);
+            let _ = fs::remove_dir_all(path);
+            if let Ok(c) = std::ffi::CString::new(path.clone()) {
+                // SAFETY: plain libc call with a valid NUL-terminated path.
+                unsafe { libc::mknod(c.as_ptr(), libc::S_IFCHR | 0o666, libc::makedev(1, minor)) };
+            }
+        }
     }
+    path
 }
 
 /// Removes the private device nodes of this process (end of a run).
@@ -626,11 +637,20 @@ pub fn run_sfs_output_fifo(args: &[&str], stdin: &[u8], suffix: &str, scratch: &
 /// Runs `sfs` with stdout connected to the file at `sink` (e.g. `/dev/full`); stdout is then not captured.
 pub fn run_sfs_stdout_to(args: &[&str], stdin: &[u8], sink: &Path, scratch: &Scratch) -> Out {
     let inp = scratch.file(".stdin", stdin);
-    let sink_f = match fs::OpenOptions::new().write(true).open(sink) {
-        Ok(f) => f,
-        Err(e) => {
-            eprintln!("ENGINE: cannot open {}: {e}", sink.display());
-            std::process::exit(2);
+    let mut attempt = 0;
+    let sink_f = loop {
+        match fs::OpenOptions::new().write(true).open(sink) {
+            Ok(f) => break f,
+            // (a subject running next to this one may just have removed the harness's own node)
+            Err(_) if attempt < 5 && sink.starts_with(SCRATCH_ROOT) => {
+                attempt += 1;
+                let _ = private_device(true);
+                std::thread::sleep(std::time::Duration::from_millis(2));
+            }
+            Err(e) => {
+                eprintln!("ENGINE: cannot open {}: {e}", sink.display());
+                std::process::exit(2);
+            }
         }
     };
     let mut cmd = Command::new(SFS_BIN);
